@@ -430,6 +430,7 @@ struct Family {
   virtual std::string bound_note() const { return ""; }
   virtual std::string outcome_tag(const Obs &, int /*mode*/) const { return ""; }
   virtual std::string key_mode(int /*mode*/) const { return ""; } // part of a violation key that names the kind of input
+  virtual int         plain_mode(int mode) const { return mode; }  // a failure that also shows in this mode is reported there only
   virtual int         base_mode(int /*mode*/) const { return 0; } // the plain form a whole-input variant is compared with
   virtual size_t      alpha_size(int /*mode*/) const { return alpha.size(); }
   virtual const char *item_name(int /*mode*/, int i) const { return alpha[(size_t)i].name; }
@@ -610,6 +611,16 @@ static int run_family(Family &f, Ctx &cx)
           mmsg    = f.reference(m, mode, om, cx, &mf);
         });
         known_min.push_back({ mode, m });
+        if (f.plain_mode(mode) != mode && !cx.replay) {
+          bool also = false;
+          quietly([&] {
+            bool        l;
+            std::string fl;
+            Obs         op = guarded_run(f, m, f.plain_mode(mode), cx, cj, &l);
+            also           = !f.reference(m, f.plain_mode(mode), op, cx, &fl).empty();
+          });
+          if (also) return; // reported for the plain mode
+        }
         std::string key = f.prop + ":reference:" + f.name + ":" + (m.empty() ? std::string("(empty)") : plus_names(m, mode)) + f.key_mode(mode) + ":" + mf;
         cx.violation(key, "documented effect missing or wrong: " + mmsg + "; minimal input " + f.names(m, mode) + " (" + f.describe_mode(mode) + ") = " + vf::jesc(f.input_text(m, mode).substr(0, 400)), case_json(f, idx, m, mode));
       }
@@ -934,6 +945,7 @@ struct EnvOptsFamily : Family {
   bool        strippable(int) const override { return true; }
   int         base_mode(int mode) const override { return (mode / 2) * 2; } // same LOCALDOMAIN, blank separated
   std::string key_mode(int mode) const override { return mode / 2 ? std::string("@LOCALDOMAIN-") + ld[(size_t)mode / 2].name : std::string(); }
+  int         plain_mode(int) const override { return 0; }
   std::string bound_note() const override
   {
     return " for RES_OPTIONS with LOCALDOMAIN unset; x " + std::to_string(ld.size()) + " LOCALDOMAIN values x {space, tab} separators for sequences of <= " + std::to_string(kshort) + " tokens";
@@ -1124,7 +1136,7 @@ struct HostsFamily : Family {
         std::string pre = std::string("byname ") + n + (v6 ? " 6 " : " 4 ");
         std::string l   = line_of(pre);
         bool        has = l.find(std::string("=") + hl.ip + ",") != std::string::npos || l.find(std::string(",") + hl.ip + ",") != std::string::npos;
-        if (first_seen.insert(pre).second) {
+        if (first_seen.insert(n).second) {
           if (l.compare(0, pre.size() + 2, pre + "0 ") != 0 || !has) {
             *field = std::string("byname:") + n;
             return std::string("hosts line '") + alpha[(size_t)i].name + "' is the first to mention " + n + " but the lookup does not return its address: " + l;
